@@ -340,11 +340,16 @@ class Quantity {
     }
 
     // Modulo operator (defined only for integral rep).
-    friend constexpr Quantity operator%(Quantity a, Quantity b) { return {a.value_ % b.value_}; }
+    //
+    // As with `+` and `-` above, the rep of the result is whatever the underlying operator produces
+    // (small integral types get promoted), rather than being narrowed back to `Rep`.
+    friend constexpr auto operator%(Quantity a, Quantity b) {
+        return make_quantity<UnitT>(a.value_ % b.value_);
+    }
 
-    // Unary plus and minus.
-    constexpr Quantity operator+() const { return {+value_}; }
-    constexpr Quantity operator-() const { return {-value_}; }
+    // Unary plus and minus (again, following the underlying operators' integral promotion).
+    constexpr auto operator+() const { return make_quantity<UnitT>(+value_); }
+    constexpr auto operator-() const { return make_quantity<UnitT>(-value_); }
 
     // Automatic conversion to Rep for Unitless type.
     template <typename U = UnitT, typename = std::enable_if_t<IsUnitlessUnit<U>::value>>
